@@ -176,6 +176,9 @@ class OperatorMapper:
         operator_name = operation.__name__
 
         if operation is operator.eq or operator_name == "eq":
+            if hasattr(left, "is_not_distinct_from") and hasattr(right, "is_not_distinct_from"):
+                # two columns: None == None holds in Python, NULL = NULL does not in SQL
+                return left.is_not_distinct_from(right)
             return left == right
         if operation is operator.gt or operator_name == "gt":
             return left > right
@@ -186,7 +189,8 @@ class OperatorMapper:
         if operation is operator.le or operator_name == "le":
             return left <= right
         if operation is operator.ne or operator_name == "ne":
-            return left != right
+            # None != value holds in Python, NULL != value does not in SQL
+            return left.is_distinct_from(right)
 
         raise UnsupportedOperatorError(f"Unknown operator: {operation}")
 
